@@ -349,7 +349,9 @@ func settingPool(batch bool) []CSetting {
 	return ps
 }
 
-func isFuncSetting(s CSetting) bool { return s.P == "prep" || s.P == "exec" || s.P == "post" || s.P == "fb" }
+func isFuncSetting(s CSetting) bool {
+	return s.P == "prep" || s.P == "exec" || s.P == "post" || s.P == "fb"
+}
 
 func genConfig(r *rng, tier string) (scens []CScen, tags [][]string) {
 	add := func(sc CScen, tg ...string) {
